@@ -461,6 +461,7 @@ func c28(c *an.Check) {
 			}
 			return false
 		}}}})
+	writePacketBlocking(c)
 	floodsubLockset(c)
 	c.Note("not decided: delivery to every reachable subscriber in a mesh (topology-quantified, dynamic)")
 }
@@ -593,6 +594,7 @@ func c29(c *an.Check) {
 	}
 	c.Require(badDel == "" && nDelAll >= 1, "WHO", "floodsub channel entries are removed only by Execute's sweep", exe, "", nDelAll, "delete(m.channels, …) occurs only in Execute", badDel)
 	sweepObligations(c)
+	writePacketBlocking(c)
 	floodsubLockset(c)
 }
 
@@ -633,4 +635,34 @@ func deliveredMessageProvenance(c *an.Check) {
 		}
 	}
 	c.Require(ok, "PROVENANCE", "floodsub delivers messages attributed to the verified signer", hvm, "", 1, "NewMessage(IDB58Decode(pkt.GetFromPeerId()), verified inner)", why)
+}
+
+
+// writePacketBlocking: the per-peer send helper never drops a packet silently: its send on the peer's queue is a blocking
+// select (no default case) whose only alternative is the stream context ending. The one-shot Subscribe=false notice and
+// every forwarded message go through it.
+func writePacketBlocking(c *an.Check) {
+	wp := c.P.Func(fsPkg, "streamHandler", "writePacket")
+	ok, why := false, "writePacket not found"
+	if wp != nil {
+		why = "no send on the peer's packet queue found"
+		for _, b := range wp.Blocks {
+			for _, ins := range b.Instrs {
+				switch x := ins.(type) {
+				case *ssa.Select:
+					for _, st := range x.States {
+						if st.Dir == types.SendOnly {
+							ok, why = true, ""
+							if !x.Blocking {
+								ok, why = false, "the send on the peer's queue has a default case: when the queue is full the packet (e.g. the one-shot Subscribe=false notice) is dropped silently"
+							}
+						}
+					}
+				case *ssa.Send:
+					ok, why = true, ""
+				}
+			}
+		}
+	}
+	c.Require(ok, "MUSTCALL", "floodsub writePacket never drops a packet silently", wp, "", 1, "blocking send (alternatives: context done only)", why)
 }
